@@ -152,12 +152,19 @@ def gen_unit(rng):
                  ('(set "n" -1 (sort_by_values_by .obj (* . :n)))', "(sort_by_values_by .obj (* . -1))"),
                  # a name is the string it is: blanks at its ends belong to it
                  ('(set " n" 5 (: " n"))', "5"), ('(set "n " 6 (get_variable "n "))', "6"), ('(define "add a " (push [] .i) (@ "add a "))', "(push [] .i)"),
-                 ('(set "n" 1 (set " n" 2 (push [] (: " n") (: "n"))))', "(push [] 2 1)")]
+                 ('(set "n" 1 (set " n" 2 (push [] (: " n") (: "n"))))', "(push [] 2 1)"),
+                 # the innermost binding of a name is the one in force, and only inside its own body
+                 ('(set "a" 1 (set "a" 2 :a))', "2"), ('(set "a" 1 (push [] (set "a" 2 :a) :a))', "(push [] 2 1)"), ('(define "m" 1 (define "m" (size .arr) @m))', "(size .arr)"),
+                 ('(set "a" 1 (set "b" 2 (set "a" (default .i 0) (push [] :a :b))))', "(push [] (default .i 0) 2)"), ('(define "m" .i (push [] (define "m" 0 @m) @m))', "(push [] 0 .i)"),
+                 ('(set "a" 1 (set "b" 2 (set "c" 3 (set "d" 4 (set "a" 5 (push [] :a :b :c :d))))))', "(push [] 5 2 3 4)"),
+                 ('(set "a" (default .i 0) (set "a" (+ :a 1) (set "a" (+ :a 1) :a)))', "(+ (default .i 0) 2)")]
         if rng.random() < 0.5:
             u["pre"] = ["--set", "index=3", "--set", "@index=(size .)", "--set", "@twin=(+ 1 1)", "--set", "twin=\"t\""]
             rng.shuffle(u["pre"]) if False else None
             cands += [("(fold .arr 0 (+ (default .so_far 0) :index))", "(fold .arr 0 (+ (default .so_far 0) 3))"), ("(push [] :twin @twin :index @index)", '(push [] "t" (+ 1 1) 3 (size .))'),
-                      ("(map .arr (push [] :index @twin))", "(map .arr (push [] 3 (+ 1 1)))")]
+                      ("(map .arr (push [] :index @twin))", "(map .arr (push [] 3 (+ 1 1)))"),
+                      ('(push [] (set "index" 8 :index) :index)', "(push [] 8 3)"), ('(push [] (define "index" 8 @index) @index)', "(push [] 8 (size .))"),
+                      ('(set "twin" 0 (set "index" 1 (push [] :twin :index @twin)))', "(push [] 0 1 (+ 1 1))")]
         for a, b in rng.sample(cands, rng.choice((1, 2, 3))):
             u["pairs"].append((a, b, False))
         return u
